@@ -10,6 +10,7 @@ CONSTANTS
   StartAll = FALSE
   StartSuf = {TRUE}
   EvpAny = TRUE
+  SymFirst = TRUE
   WithSetLast = TRUE
   Guard = "before"
 CONSTRAINT HighWater
